@@ -626,4 +626,24 @@ pub fn fam_convex(o: &mut Rep, seed: u64) {
             if !(dev <= r + 1.0e-9) { o.report("convex", seed, format!("C04 SO3 cone {:?}: interpolate(({:?},{:?},{:?},{:?}), ({:?},{:?},{:?},{:?}), {:?}) is {:?} rad from the centre", r, a.x, a.y, a.z, a.w, b.x, b.y, b.z, b.w, t, dev)); }
         } } }
     }
+    // premise of C04 used by every planner: a uniform sample of a bounded space satisfies its bounds (cones of many widths about
+    // centres with all components non-zero; intervals; boxes)
+    let mut rng = StdRng::seed_from_u64(seed ^ 0x5a4);
+    for c in [unit_q(1.0, 2.0, 3.0, 4.0), unit_q(0.0, 1.0, 0.0, 1.0), unit_q(-0.5, 0.7, 0.2, -0.4), SO3State::identity()] {
+        for r in [0.2, 0.3, 0.45, 0.6, 1.2, 2.0] {
+            let sp = SO3StateSpace::new(Some((c.clone(), r))).unwrap();
+            let mut bad = 0usize;
+            let mut worst = 0.0f64;
+            for _ in 0..300 { let q = sp.sample_uniform(&mut rng).unwrap(); let dev = sp.distance(&c, &q); if !(dev <= r + 1.0e-9) || !sp.satisfies_bounds(&q) { bad += 1; worst = worst.max(dev); } }
+            if bad > 0 { o.report("convex", seed, format!("C04 SO3 cone {:?} about ({:?},{:?},{:?},{:?}): {} of 300 uniform samples lie outside the cone (up to {:?} rad from the centre)", r, c.x, c.y, c.z, c.w, bad, worst)); }
+        }
+    }
+    for (lo, hi) in [(-1.0, 2.0), (3.0, PI), (-PI, -3.1), (-0.001, 0.001)] {
+        let sp = SO2StateSpace::new(Some((lo, hi))).unwrap();
+        for _ in 0..300 { let a = sp.sample_uniform(&mut rng).unwrap(); if !sp.satisfies_bounds(&a) { o.report("convex", seed, format!("C04 SO2 ({:?},{:?}): the uniform sample {:?} violates the bounds", lo, hi, a.value)); break; } }
+    }
+    {
+        let sp = RealVectorStateSpace::new(3, Some(vec![(-2.0, 3.0), (0.0, 1.0e-9), (-1.0e6, 1.0e6)])).unwrap();
+        for _ in 0..300 { let a = sp.sample_uniform(&mut rng).unwrap(); if !sp.satisfies_bounds(&a) { o.report("convex", seed, format!("C04 R^3 box: the uniform sample {:?} violates the bounds", a.values)); break; } }
+    }
 }
